@@ -272,6 +272,8 @@ def check_case(ctx, prop, case, via, contracts, index=0):
                         desc.get('type'), prop))
             return
         rec.hit('classifications-completed')
+        if len(case['rain']) >= 2000:
+            rec.hit('classifications-of-records-with-2000+-steps')
         findings, stats = oracle_classify.walk(connection, case['sthr'], case['jthr'])
         for p, k, w in contract_reports:
             findings.append((p, k, w))
